@@ -538,6 +538,15 @@ class Discharger:
                         return True, "dominated by remaining() %s len on the same receiver" % op
                     if kb == rkey and ka == akey and op in ("Le", "Lt", "Eq"):
                         return True, "dominated by len %s remaining() on the same receiver" % op
+                # the same test through `PartialOrd::ge(&remaining, &len)` (anyhow::ensure!, `.ge()`), `match a.cmp(&b)` ..
+                ae = show(strip(self.X.operand(body, arg)))
+                for ea, op, eb, _cb in lib.order_facts(body, self.X, s.bb):
+                    ra = ea[0] == "call" and ea[3][1] == r.bb
+                    rb_ = eb[0] == "call" and eb[3][1] == r.bb
+                    if ra and show(eb) == ae and op in ("Ge", "Gt", "Eq"):
+                        return True, "dominated by remaining() %s len on the same receiver" % op
+                    if rb_ and show(ea) == ae and op in ("Le", "Lt", "Eq"):
+                        return True, "dominated by len %s remaining() on the same receiver" % op
                 # constant-bounded argument
                 ai = iv.at(arg, s.bb)
                 ri = iv.at({"k": "copy", "pl": r.dest}, s.bb)
@@ -675,6 +684,20 @@ class Discharger:
                             l = x[2]
                             if l[0] == "call" and l[1].endswith("::len"):
                                 return True, "end = len() - k of the indexed value"
+                    # frame = buf.split_to(n + k); &frame[..n]   (k >= 0): the frame has exactly n + k bytes
+                    for rcv in alts(recv):
+                        for y in walk(rcv):
+                            if y[0] == "call" and y[1] in ("bytes::BytesMut::split_to", "bytes::Bytes::split_to") and len(y[2]) > 1:
+                                n = y[2][1]
+                                if n[0] == "field" and n[1] == "0" and n[4][0] == "bin" and n[4][1].startswith("Add"):
+                                    n = n[4]
+                                if show(n) == show(end):
+                                    return True, "end = the length the value was split to"
+                                if n[0] == "bin" and n[1].startswith("Add"):
+                                    for p_, q_ in ((n[2], n[3]), (n[3], n[2])):
+                                        k = lib.const_len(q_)
+                                        if show(p_) == show(end) and k is not None and k >= 0:
+                                            return True, "end = n of split_to(n + %d)" % k
             return False, "range end not provably within bounds"
         return False, "indexing may be out of bounds"
 
